@@ -9,7 +9,7 @@ CLAIMED = {
    note="Trusted: sync.Mutex/sync.Cond/context models, go/ssa, SMT solvers, lock-atomicity => linearizability theorem (DESIGN 5.3); int as mathematical integer, float64 credit as Real.",
    technique="contract-based deductive verification: VCs generated from go/ssa of /repo by govc, discharged by z3/cvc5"),
  "C07": dict(
-   text="Safety form of the no-lost-wake-up property for pubsub.Queue: ghost counters of parked / notified waiters per condition variable and waiter kind are part of the lock invariant (W>0 and enabling condition => S>0), every cond.Wait carries a park-while-enabled obligation, every critical section must re-establish the invariant; proved for all numbers of waiters and all interleavings.",
+   text="Safety form of the no-lost-wake-up property for pubsub.Queue and pubsub.Deque (Queue: Wait/BlockingAdd/unsafeWaitWhileEmpty, doAdd, popFront, Close; Deque: WaitFront/WaitBack via waitPop and element.wait, WaitPushFront/WaitPushBack via waitPushAfter, addAfter, pop, Close): ghost counters of parked / notified waiters per condition variable and waiter kind are part of the lock invariant (W>0 and enabling condition => a notified waiter on that condition variable is pending), every cond.Wait carries a park-while-enabled obligation, every critical section must re-establish the invariant; proved for all numbers of waiters and all interleavings.",
    ref="DESIGN.md 5.4, 7/C07",
    note="Trusted: sync.Cond model (Signal wakes one parked waiter of an arbitrary kind, Broadcast all), the quiescence theorem of DESIGN 5.4, scheduler fairness for 'promptly'; the ctx-watcher goroutine is modelled as running when the function cancels its derived context.",
    technique="contract-based deductive verification with ghost wake-up accounting in the lock invariant"),
@@ -19,6 +19,12 @@ CLAIMED = {
    note="Trusted: Go memory model (all accesses under one mutex => no race), sync primitives; objects allocated by a function are unshared until it returns.",
    technique="contract-based deductive verification: held(m) obligations at guarded field accesses"),
 }
+
+CLAIMED["C06"] = dict(
+   text="Deductive proof, function by function, that every critical section of pubsub.Deque (PushFront/PushBack, PopFront/PopBack, ForcePushFront/ForcePushBack, WaitFront/WaitBack, WaitPushFront/WaitPushBack, Len, Close, the kernel addAfter/pop/waitPop/waitPushAfter/element.wait, makeDeque, the three limit trackers) preserves the circular doubly-linked representation invariant and has exactly the effect of the sequential capacity-bounded double-ended queue on a ghost sequence view: pops take the element currently at the requested end, a refused push has no effect, a Force push on a full deque evicts exactly one element from the opposite end and then succeeds, after Close pushes fail with ErrQueueClosed and pops report not-ok, Len <= capacity; blocking operations: every section before the last is a stutter and a context error leaves the view unchanged. Guarded state is havocked at every Lock / cond.Wait so the proof covers all interleavings; linearizability follows by the lock-atomicity argument of DESIGN 5.3. Not under contract: NewDeque/DequeOptions.Validate (that the tracker handed to the deque is one of the three kinds with capacity >= 1 is part of the lock invariant, established by construction but not proved), iterators/Distributor (C20).",
+   ref="DESIGN.md 5.3, 7/C06",
+   note="Trusted: sync.Mutex/sync.Cond/context models, go/ssa, SMT solvers, lock-atomicity => linearizability theorem (DESIGN 5.3); int as mathematical integer, float64 credit as Real; dq.mtx is set once at construction.",
+   technique="contract-based deductive verification: VCs generated from go/ssa of /repo by govc (ghost sequence view + inverse index, quantified invariants), discharged by z3/cvc5")
 
 CLAIMED["C14"] = dict(
    text="fun.WaitGroup: Add/Done/Inc/Num/IsDone/Wait proved against the counter specification under the lock invariant counter>=0 with wake-up accounting (no waiter parked un-notified while the counter is zero); Add panics exactly when the sum would be negative and leaves the counter unchanged; Wait returns only from a section that observed zero or when its context is done; Launch increments strictly before the go statement and the spawned body defers Done (PostHook runs its hook on normal and panicking exit).",
